@@ -1291,7 +1291,10 @@ class ManifestRecursiveLoader:
                     fe,
                     hashes=hashes,
                     expected_dev=self.manifest_device,
-                    last_mtime=last_mtime)
+                    # entries adopted from a so far unreferenced
+                    # Manifest were never verified, do not trust them
+                    last_mtime=(last_mtime if mpath not in new_manifests
+                                else None))
                 if changed and mpath is not None:
                     self.updated_manifests.add(mpath)
 
